@@ -625,6 +625,9 @@ class TrigTime:
                 year, month, day = int(match0[1]), int(match0[2]), int(match0[3])
             else:
                 month, day = int(match0[1]), int(match0[2])
+                if day_offset > 0:
+                    # this year's date has passed, so the caller asks for next year's
+                    year += 1
             day_offset = 0  # explicit date means no offset
             fixed_date = True
             dt_str = dt_str[len(match0.group(0)) :]
